@@ -44,6 +44,7 @@ func main() {
 	}
 
 	ir.KnownFuncs = rules.KnownFuncs()
+	ir.KnownSigs = rules.KnownSigs()
 	if os.Getenv("CDIVERIF_NONORM") != "" {
 		ir.NormalizeCFG = false
 	}
@@ -107,7 +108,7 @@ func main() {
 		}
 		sort.Strings(pk)
 		analysed = append(analysed, map[string]interface{}{
-			"GOOS": cfg, "packages": pk, "repo_functions": len(u.RepoFuncs()), "helpers_expanded": inlinedList(u),
+			"GOOS": cfg, "packages": pk, "repo_functions": len(u.RepoFuncs()), "helpers_expanded": inlinedList(u), "renamed": u.Renamed,
 		})
 	}
 	r.Analysed["build_configurations"] = analysed
